@@ -7,7 +7,7 @@ PROP = {
         "Mps.C04.culprits_table", "Mps.C04.blamed_only_under_same_view",
     ],
     "generated": ["Mps.C04.gen_echo_before_verify"],
-    "suites": [{"name": "handler", "quick": 400, "thorough": 12000}, {"name": "sess-tamper", "quick": 45, "thorough": 900}, {"name": "sess-presign-abort", "quick": 5, "thorough": 24}],
+    "suites": [{"name": "handler", "quick": 400, "thorough": 12000}, {"name": "sess-tamper", "quick": 45, "thorough": 900, "shards": 8}, {"name": "sess-presign-abort", "quick": 5, "thorough": 24}],
     "propfields": {"handler": ["term", "closed", "ok"], "sess-tamper": ["ok"], "sess-presign-abort": ["ok"]},
     "level_text": "Proof (handler level): for ALL scripts and ALL call histories, a Result() error that blames f for a failed message is backed by a message from f, stored for the round the handler is in, that violates the protocol in that round (wrong kind, undecodable, failing verification/storing) - blame_provenance; no message an honest handler of the script ever emits can be such a witness - honest_never_witness; an abort notice names exactly its sender - notice_names_its_sender. Culprit sets of every kind of error are compared with the real MultiHandler under generated single-cheater schedules (all cheater positions, tamper kinds, orders).",
     "level_note": "PARTIAL: the protocol-specific half of the property (CMP presign abort identification; blame when verification depends on an equivocated view) is decided by the real-protocol suites listed in DESIGN.md for C04, not by the scripted model: in the scripted protocol verification does not depend on earlier views.",
